@@ -53,7 +53,15 @@ TABLE = {
             "rule's start and stop state accepts exactly the words the grammar's regular expression matches - proved by "
             "a bisimulation certificate per rule whose checker is proved sound in Lean (Lemmas/Bisim.lean: derivatives "
             "vs configuration sets, one representative code point per character class) and which the kernel re-checks "
-            "on every regeneration. Static theorems (Props/C14.lean): the model lexer takes the longest match over all "
+            "on every regeneration. GENERATED CODE AGAINST AUTOMATON AND GRAMMAR (re-proved on every run): the 44 control forms "
+            "of the rule code (if / while / plus-loop / alternative switch, with the ATN state entered last) are the same in "
+            "the Python and the C++ parser and each sits on a decision state of the matching kind, every decision having its "
+            "form (C14_parser_control_matches_atn); both targets refresh the look-ahead token at the same places "
+            "(C14_parser_lookahead_reads_identical); token-type and rule-index constants of the Python classes and the C++ "
+            "headers are the grammar's numbering (C14_code_constants_match_grammar). The decoder of the serialised ATN is "
+            "compared with ANTLR's own ATNDeserializer on every run; when a lexer certificate fails to close, the generator "
+            "searches for a distinguishing word, which the harness lexes with the shipped lexer. "
+            "Static theorems (Props/C14.lean): the model lexer takes the longest match over all "
             "rules, earliest rule on ties; what a rule contributes is the longest prefix in its language; 61 token "
             "kinds. PARSER (C14_parser_rule_language): for each of the 35 parser rules the ATN's rule-body automaton, read over "
             "the alphabet tokens + rule references, accepts exactly the grammar's right-hand side (for the left-recursive "
